@@ -146,3 +146,42 @@ PROPS['C10'] = dict(
     assumptions=['N=1024 is the only ring size the FFT processors implement (asserted by the library)'],
     jobs=_c10, max_report=60,
 )
+
+# ------------------------------------------------------------------------------------------------ C03
+def _c03(tier, seed):
+    if tier == 'quick':
+        return J('c03.cpp', 'optim', 'spqlios-fma', n=8) + J('c03.cpp', 'optim', 'fftw', n=4) + J('c03.cpp', 'debug', 'nayuki-portable', n=4)
+    jobs = []
+    for be in BE:
+        jobs += J('c03.cpp', 'optim', be, n=3) + J('c03.cpp', 'debug', be, n=3, args=['K=1'])
+    return jobs
+PROPS['C03'] = dict(
+    level='exploration',
+    rule='cases = (scheme, dimension, Msize, noise level index, key seed): all messages of [0,Msize) for Msize<=64 ({0,1,M/2,M-1} above) for LWE and TLWE-constant, '
+         'a polynomial message carrying every message for TLWE/TGSW; trivial samples under several keys; 2000 fresh gate ciphertexts per default set. '
+         'noise levels {0, 2^-30, 2^-25, <=2^-15, 1/(40M), 1/(20M)} (TGSW: up to 1/(20 Bg), its decryptable maximum). non-trivial = alpha>0 and message != 0. oracle: exact equality',
+    bounds={'quick': 'K=1 key seed per cell; spqlios-fma + fftw (optim) + nayuki-portable (debug)', 'thorough': 'K=4 seeds x 5 back-ends (optim) + K=1 x 5 back-ends (debug)'},
+    assumptions=['10 sigma margin: a correct tree fails a case with probability < 1e-22; every case is deterministic given (VERIF_SEED, case key)',
+                 'TGSW decryptable maximum is what tGswSymDecrypt amplifies: Msize*alpha*(Bg/Msize) <= 1/20', 'ring schemes at N=1024 (FFT back-ends implement no other size)'],
+    jobs=_c03,
+)
+
+# ------------------------------------------------------------------------------------------------ C05
+def _c05(tier, seed):
+    jobs = J('c05.cpp', 'optim', 'spqlios-fma', n=6, args=['part=single']) + J('c05.cpp', 'optim', 'spqlios-fma', n=6, args=['part=history'])
+    jobs += J('c05.cpp', 'asan-debug', 'nayuki-portable', n=4, args=['part=single'])
+    if tier == 'thorough':
+        jobs = J('c05.cpp', 'optim', 'spqlios-fma', n=8, args=['part=single'], deadline=2400, timeout=3000) + J('c05.cpp', 'optim', 'spqlios-fma', n=8, args=['part=history'])
+        jobs += J('c05.cpp', 'asan-debug', 'nayuki-portable', n=6, args=['part=single', 'fullkeys=0'])
+        jobs += J('c05.cpp', 'debug', 'fftw', n=4, args=['part=history'])
+    return jobs
+PROPS['C05'] = dict(
+    level='exploration',
+    rule='cases = (dimension tuple, real-valued parameter tuple, content pattern, object type, transport) for the 13 stand-alone types; (reals, content, type, transport) for cloud/secret key sets at N=1024; '
+         'the two default parameter sets; every ordered pair (thorough: triple) of the 15 types written back-to-back into one stream. oracle: field-for-field equality (doubles bit-for-bit, arrays memcmp, '
+         'key-row variances against the common maximum), stream position, export(import(bytes)) == bytes, FILE bytes == stream bytes. non-trivial = a real not representable in 8 decimals or a binary section',
+    bounds={'quick': '4 dimension tuples x 11 real tuples (1e-12..0.5 incl. 2^-15, 2^-25, 7.18e-9) x 6 contents x 13 types x 2 transports; key sets: 11 reals x seeded (+MIN, END-marker for 3); default sets; all 225 ordered pairs x 2 transports',
+            'thorough': '+ all ordered triples (at most one key set per triple); complete default 80/128-bit key sets: every gate bit-identical under the re-imported cloud key, re-imported secret key decrypts identically'},
+    assumptions=['variance of key rows is stored once and comes back as the common maximum (allowed by the statement)', 'key sets need N=1024 because import recomputes the FFT image'],
+    jobs=_c05, max_report=12,
+)
